@@ -207,3 +207,11 @@ package rlp
 //@   requires [table!init] reflByteArr(val)
 //@   ensures [consumed] result == nil ==> s.kind == 0 - 1
 //@   modifies *s, heap("uint8")
+
+// SplitString as used by the trie node decoder (C02): ghost splitlen is the length of the content the last
+// successful SplitString handed out (a history variable for contracts of its callers).
+//@ ghost splitlen {int}
+//@ func SplitString
+//@   option trusted
+//@   ensures [content] result2 == nil ==> ghost(splitlen) == len(result0) && ref(result0) == ref(b) && len(result0) <= len(b)
+//@   modifies ghost(splitlen)
